@@ -391,9 +391,9 @@ static void gen_ops_string(hctx* h, char* s, size_t cap, int nops, int maxk) {
     }
 }
 
-static void exhaustive(hctx* h, int w, const uint32_t* letters, int nl, int maxlen, int levels_too) {
+static void exhaustive_from(hctx* h, int w, const uint32_t* letters, int nl, int minlen, int maxlen, int levels_too) {
     uint32_t seq[16]; int16_t lev[16]; int idx[16];
-    for (int len = 0; len <= maxlen; len++) {
+    for (int len = minlen; len <= maxlen; len++) {
         memset(idx, 0, sizeof idx);
         for (;;) {
             for (int i = 0; i < len; i++) { seq[i] = letters[idx[i]]; lev[i] = (int16_t)letters[idx[i]]; }
@@ -404,6 +404,10 @@ static void exhaustive(hctx* h, int w, const uint32_t* letters, int nl, int maxl
             if (p < 0) break;
         }
     }
+}
+
+static void exhaustive(hctx* h, int w, const uint32_t* letters, int nl, int maxlen, int levels_too) {
+    exhaustive_from(h, w, letters, nl, 0, maxlen, levels_too);
 }
 
 static void all_histories(hctx* h, int w, const uint8_t* d, size_t dn, int depth) {
@@ -420,6 +424,41 @@ static void all_histories(hctx* h, int w, const uint8_t* d, size_t dn, int depth
             if (p < 0) break;
         }
     }
+}
+
+/* every put / put_repeat / flush history of at most `depth` calls over a small alphabet (flushes anywhere),
+ * each followed by a final flush */
+static void all_enc_histories(hctx* h, int w, int depth) {
+    static const char* alpha[] = {"f", "p0", "p1", "r1x3", "r0x8", "r1x9"};
+    int idx[8]; char ops[160];
+    for (int len = 0; len <= depth; len++) {
+        memset(idx, 0, sizeof idx);
+        for (;;) {
+            size_t n = 0; ops[0] = 0;
+            for (int i = 0; i < len; i++) n += (size_t)sprintf(ops + n, "%s.", alpha[idx[i]]);
+            ops[n++] = 'f'; ops[n] = 0;
+            do_rle_encops(h, w, ops);
+            int p = len - 1;
+            while (p >= 0 && ++idx[p] == 6) { idx[p] = 0; p--; }
+            if (p < 0) break;
+        }
+    }
+}
+/* a random history with flushes anywhere; values from a small alphabet below 2^w so that runs form */
+static void rand_enc_history(hctx* h, int w, char* ops, size_t cap) {
+    static const int reps[] = {0, 1, 2, 6, 7, 8, 9, 15, 16, 17, 40};
+    uint32_t m = wmask(w); uint32_t al[3] = {0, m, m ? (uint32_t)h_below(h, (uint64_t)m + 1) : 0};
+    int len = 1 + (int)h_below(h, 14); size_t n = 0;
+    for (int i = 0; i < len && n + 40 < cap; i++) {
+        if (i) ops[n++] = '.';
+        switch (h_below(h, 4)) {
+        case 0: ops[n++] = 'f'; break;
+        case 1: n += (size_t)sprintf(ops + n, "r%ux%d", al[h_below(h, 3)], reps[h_below(h, sizeof reps / sizeof *reps)]); break;
+        default: n += (size_t)sprintf(ops + n, "p%u", al[h_below(h, 3)]); break;
+        }
+    }
+    if (h_chance(h, 4, 5)) { ops[n++] = '.'; ops[n++] = 'f'; }
+    ops[n] = 0;
 }
 
 static void gen_rle(hctx* h) {
@@ -483,8 +522,20 @@ static void gen_rle(hctx* h) {
       exhaustive(h, 2, l012, 3, h->thorough ? 12 : 7, 1);
       if (h->thorough) {
           static const int ws[] = {7, 8, 9, 32};
-          for (int k = 0; k < 4; k++) { uint32_t l3[3] = {0, 1, wmask(ws[k])}; exhaustive(h, ws[k], l3, 3, 10, ws[k] <= 9); }
+          for (int k = 0; k < 4; k++) { uint32_t l3[3] = {0, 1, wmask(ws[k])}; exhaustive(h, ws[k], l3, 3, 10, ws[k] <= 9);
+              /* lengths 11 (all four widths) and 12 (width 8), values only: the <= 12 scope at all four widths with levels
+               * would be 7 M lines */
+              exhaustive_from(h, ws[k], l3, 3, 11, ws[k] == 8 ? 12 : 11, 0); }
       } }
+
+    /* --- encoder histories with flushes anywhere: exhaustive small scope, then random --- */
+    all_enc_histories(h, 1, h->thorough ? 6 : 4);
+    all_enc_histories(h, 3, h->thorough ? 5 : 3);
+    for (long i = 0; i < 150 * scale; i++) {
+        int w = i < 33 ? (int)i : rand_width(h);
+        rand_enc_history(h, w, ops, sizeof ops);
+        do_rle_encops(h, w, ops);
+    }
 
     /* --- run-structured random sequences at every width --- */
     for (long i = 0; i < 600 * scale; i++) {
